@@ -22,6 +22,10 @@ RULE = (
 )
 
 ASSUMPTIONS = [
+    "one history in nine starts with a session cookie it did not issue: the harness writes the wire value the way the session "
+    "layer does ({\"0\": id, \"1\": client state}, fresh id, no server record) and lets the real processor of the configuration "
+    "protect it - a plain cookie that any client can make when no rule covers the name, a signed one as a deployment that only "
+    "signed would have issued. What the middleware must do with such a session is what C12 says for any session",
     "protection is decided on the wire, independently of `will_sign`/`will_encrypt`: the `Set-Cookie` value is "
     "'plain' if it equals the value built by the middleware (possibly percent-encoded), 'signed' if its base64url "
     "decoding is 32 bytes followed by that value, 'opaque' (encrypted) if neither holds, no textual form of the id "
